@@ -550,6 +550,59 @@ func c17SelectBlock(c *Ctx) {
 			}
 		}
 	}
+	// two selections alive in one query: the result of the first is the receiver while the second is worked out as an argument
+	for it := 0; it < c.scale(150, 1500); it++ {
+		mkList := func(n int) ([]*Doc, []decimal.Decimal) {
+			var xs []*Doc
+			var ks []decimal.Decimal
+			for i := 0; i < n; i++ {
+				k := c17Num(r)
+				xs = append(xs, dObj("k", k, "j", c17Num(r)))
+				ks = append(ks, k.N)
+			}
+			return xs, ks
+		}
+		xs, xk := mkList(r.Intn(8))
+		ys, yk := mkList(r.Intn(8))
+		if it%5 == 0 { // longer than any small buffer
+			xs, xk = mkList(60 + r.Intn(20))
+			ys, yk = mkList(70 + r.Intn(20))
+		}
+		cr := carriers[r.Intn(len(carriers))]
+		d := tvMap("str", [][2]any{{hx("xs"), c17Render(&Doc{K: 'a', A: xs}, cr)}, {hx("ys"), c17Render(&Doc{K: 'a', A: ys}, cr)}})
+		sum := func(a ...[]decimal.Decimal) decimal.Decimal {
+			t := decimal.Zero
+			for _, l := range a {
+				for _, v := range l {
+					t = t.Add(v)
+				}
+			}
+			return t
+		}
+		num := func(v decimal.Decimal) string { return logicalDoc(dDec(v)) }
+		c.Do(Case{Q: `$.xs.Select("$.k").Sum($.ys.Select("$.k"))`, D: d, XK: "logical", X: num(sum(xk, yk)), Cls: "two-selections/Sum", InDomain: true})
+		c.Do(Case{Q: `$.ys.Select("$.k").Sum($.xs.Select("$.k"),$.ys.Select("$.k"))`, D: d, XK: "logical", X: num(sum(yk, xk, yk)), Cls: "two-selections/Sum", InDomain: true})
+		if len(yk) > 0 { // a key stepped across an empty list is "key not found"
+			c.Do(Case{Q: `$.xs.Select("$.k").Sum($.ys.k)`, D: d, XK: "logical", X: num(sum(xk, yk)), Cls: "two-selections/Sum-with-projection", InDomain: true})
+		}
+		if len(xk) > 0 {
+			want := xk[0]
+			for _, v := range append(append([]decimal.Decimal{}, xk...), yk...) {
+				if v.Cmp(want) > 0 {
+					want = v
+				}
+			}
+			c.Do(Case{Q: `$.xs.Select("$.k").Maximum($.ys.Select("$.k"))`, D: d, XK: "logical", X: num(want), Cls: "two-selections/Maximum", InDomain: true})
+		}
+		var both []*Doc
+		for _, v := range xk {
+			both = append(both, dDec(v))
+		}
+		if len(xk) == 0 { // the selection from an empty list is a nil slice, which the next step reads as null (observed; C02 speaks of collections)
+			continue
+		}
+		c.Do(Case{Q: `$.xs.Select("$.k")[@.GreaterOrEqual($.ys.Select("$.k").Count().Multiply(0).Subtract(1000000))]`, D: d, XK: "logical", X: c17List(both), Cls: "two-selections/filter-argument", InDomain: true})
+	}
 	// rows that lack the selected key, and numeral strings: outside the quantifier, run for the model comparison only
 	for it := 0; it < c.scale(60, 600); it++ {
 		ln := 1 + r.Intn(5)
